@@ -158,10 +158,21 @@ def run(ck, prog, ctx):
             continue
         adds = [(bi, t) for bi, t in lb.calls() if t.callee.res == TI + "add_" + stem]
         recs = [(bi, t) for bi, t in lb.calls() if t.callee.res == lb.id]
+        # recursion sites: direct calls, and calls inside a closure handed to an iterator adaptor (for_each / try_for_each / map ...)
+        recsites = [{"bb": bi, "line": t.line, "term": pv.of_operand(lb, t.args[1]), "id": params_of(pvn.of_operand(lb, t.args[2]), lb.id)} for bi, t in recs]
+        for cb_ in prog.family(lb):
+            if cb_ is lb or cb_.kind != "Closure":
+                continue
+            for cbi, ct_ in cb_.calls():
+                if ct_.callee.res != lb.id:
+                    continue
+                for abi_, at2 in lb.calls():
+                    if len(at2.args) >= 2 and any(pv.closure_of_operand(lb, a_) == cb_.id for a_ in at2.args[1:]):
+                        recsites.append({"bb": abi_, "line": at2.line, "term": pv.of_operand(lb, at2.args[0]), "id": params_of(pv.of_operand(cb_, ct_.args[2]), lb.id)})
         if not adds:
             ck.ob("DOM", "link_%s_term/links" % stem, False, "link_%s_term does not link the %s to the term itself" % (stem, K), where=lb.where())
             continue
-        if not recs:
+        if not recsites:
             # iterative (work-list) form: the `already present` edge may end the visit of THAT term only - it must stay inside the loop;
             # the `was new` side must feed the term's ancestors (direct parents or the closure) back into the work list
             abi0, at0 = adds[0]
@@ -203,19 +214,19 @@ def run(ck, prog, ctx):
             continue
         abi, at_ = adds[0]
         pos_e = positive_edges(lb, pvn, abi)
-        for rbi, rt in recs:
+        for rs_ in recsites:
+            rbi = rs_["bb"]
             neg_only = False
             for (sbi, tg) in pos_e:
                 x = lb.blocks[sbi].term
                 others = [o for o in x.successors() if o != tg]
                 if any(rbi in lb.region((sbi, o)) for o in others):
                     neg_only = True
-            ck.ob("DOM", "link_%s_term/propagation" % stem, not neg_only, "link_%s_term recurses %s" % (stem, "when the id was newly added (or unconditionally)" if not neg_only else "ONLY when the id was already present: new annotations never reach the ancestors"), where=lb.where(rt.line))
+            ck.ob("DOM", "link_%s_term/propagation" % stem, not neg_only, "link_%s_term recurses %s" % (stem, "when the id was newly added (or unconditionally)" if not neg_only else "ONLY when the id was already present: new annotations never reach the ancestors"), where=lb.where(rs_["line"]))
             # the recursion iterates the closure set of the term, keyed by the same record id
-            ta = pv.of_operand(lb, rt.args[1])
-            fl = field_names(ta, "HpoTermInternal")
-            ida = params_of(pvn.of_operand(lb, rt.args[2]), lb.id)
-            ck.ob("DOM", "link_%s_term/over-closure" % stem, "all_parents" in fl and ida == {3}, "the propagation visits %s of the term with the same record id" % ("the closure set (all_parents)" if "all_parents" in fl else sorted(fl & {"parents", "children"}) or "?"), where=lb.where(rt.line))
+            fl = field_names(rs_["term"], "HpoTermInternal")
+            ida = rs_["id"]
+            ck.ob("DOM", "link_%s_term/over-closure" % stem, "all_parents" in fl and ida == {3}, "the propagation visits %s of the term with the same record id" % ("the closure set (all_parents)" if "all_parents" in fl else sorted(fl & {"parents", "children"}) or "?"), where=lb.where(rs_["line"]))
         # the linked term is the looked-up term_id
         key = set()
         for a in pvn.of_operand(lb, at_.args[0]):
@@ -291,4 +302,9 @@ def run(ck, prog, ctx):
     # ---- accessors: a method named after a field returns that field, not a sibling of the same type
     ck.rule("GETTER", "an accessor `f()` / `f_mut()` of a struct with a field `f` (or its documented alias) derives its result from that field (DESIGN 3.9)")
     from engines import check_getters
-    check_getters(ck, "GETTER", prog, r"^src/annotations/(gene|omim_disease|orpha_disease)\.rs$", floor=8)
+    check_getters(ck, "GETTER", prog, r"^src/annotations/(gene|omim_disease|orpha_disease)\.rs$", floor=5)
+
+    # ---- constructors: a field named like a parameter is initialised from that parameter, not from a sibling of the same type
+    ck.rule("CTOR", "in a struct literal, the field `f` of a function with a parameter `f` derives from that parameter (DESIGN 3.9)")
+    from engines import check_ctors
+    check_ctors(ck, "CTOR", prog, r"^src/annotations/", floor=8)
